@@ -46,5 +46,72 @@ claim("C08", "Lean 4 theorems about generated Chain/Invert and a hand n-d array 
       "combinators on random trees: ranks 0-3, every valid axis incl. negative, every index kind of Partial, conditional and unconditional children mixed, Scan, Vmap.",
       _TB + " Model/Arr.lean is a hand model tied by correspondence; lax.scan / filter_vmap themselves are JAX's; declared-shape algebra for negative axes is proved in C13's ArgCheck model.", "DESIGN.md §5 C08")
 
-for _p in ["C02","C04","C05","C06","C09","C10","C11","C13","C14","C15","C16","C17","C18"]:
+claim("C09", "Lean 4 theorems about a hand-written executable model of the masks / masked networks + exhaustive structural and Float/Jacobian correspondence with the real objects",
+      "For every size (dim, cond_dim, width, depth, parameters per dimension, block shape, number of blocks, offset) and ALL raw weight/bias/scale values and activations: "
+      "the mask helpers return exactly the documented patterns (block_tril_mask's loop is modelled literally and proved equal to its closed form); masks are applied at unwrap so "
+      "the computed weight is 0 wherever the mask is false; output o of the masked MLP is unchanged by inputs of rank >= rank o; with the constructor's rank formulas (both branches, "
+      "dim=1 with jnp's x % 0 = 0, depth 0) transformer parameters of coordinate i depend only on x_j, j<i and output i on x_0..x_i; width >= dim implies every permitted pair and every "
+      "condition input is joined by a path of true mask entries; Coupling.transform returns its first block and transforms coordinate i as a function of x_i, the first block and the "
+      "condition; the BNAF transform has dy_i/dx_j = 0 for j>i and dy_i/dx_i > 0 (differentiable activation with positive derivative) and is strictly increasing in its own coordinate "
+      "for any strictly increasing activation. The model is compared with the real flowjax.masks functions and the Where.cond arrays of really constructed MaskedAutoregressive objects "
+      "over the whole size grid, its forward passes with the real transform at Float on overwritten raw leaves, and its dependency pattern with jax.jacobian sparsity.",
+      _TB.replace("the py2lean translator with its typing sheets and the Prelude/Jnp.lean primitive specs", "the hand-written model lean/Flowjaxv/Model/Masks.lean and the Prelude/Jnp.lean dot/sum specs")
+      + " eqx.nn.MLP/Linear call semantics are modelled (weight @ x + bias, scalar activation per unit); shapes allocated by the constructors enter as WellShaped hypotheses, checked on every real object.",
+      "DESIGN.md §5 C09")
+
+claim("C11", "Lean 4 theorems about definitions regenerated from the source (py2lean) and a hand-written constructor glue + Float correspondence",
+      "For every real value of the raw trainable arrays (no box needed in exact arithmetic) and every vector length: SoftPlus-reparameterised scales, "
+      "triangular diagonals, degrees of freedom and the min-scale transformer stay strictly positive and reproduce their constructor arguments; the generated "
+      "spline knot vector is strictly increasing from interval[0] to interval[1] with knots+2 entries and derivatives above min_derivative (initialised to exactly 1); "
+      "the generated planar get_act_scale gives w.u_hat = -1 + log(1+softplus(w.u)) > -1 hence positive Jacobian factors for tanh and every leaky slope in (0,1]; "
+      "mixture weights are positive, sum to one and reproduce w/sum(w); a weight-normalised non-zero row has norm softplus(raw); each modelled guard rejects exactly the "
+      "invalid set (scale/df/weights <= 0, maxval <= minval, sort(p) != arange <=> not a permutation).",
+      _TB + " Partial: float rounding inside the +-50 box is measured, not proved — two float absorption regions (planar w.u < -36.7/-16.6; spline softmax_adjust=0 with raw spread >= 36/16) "
+      "are KNOWN FINDINGS listed in known_findings.json; float32 underflow of tiny mixture weights is documented; eqx.error_if raising is observed at run time; "
+      "the hypotheses w != 0 (planar, weight norm) and knots >= 1 are needed (real code: NaN / ZeroDivisionError there).", "DESIGN.md §5 C11")
+
+claim("C13", "Lean 4 theorems (core Lean, no Mathlib) about a class table and the wrapper's inner checks regenerated from the source AST "
+      "(tools/py2lean/structure.py) and about hand-written executable models of the wrapper / vectoriser / constructor checks, "
+      "+ exhaustive small-lattice correspondence with the real classes, constructors and live class introspection",
+      "For ALL shapes of all ranks the checking wrapper (regenerated `_check_x` / `_check_condition`) lets a call through iff x has exactly the declared "
+      "shape and (the bijection is unconditional — the body then receives condition=None — or the condition has exactly cond_shape), otherwise it raises "
+      "ValueError/TypeError; for every class of the regenerated class table and each of the four methods the attribute Python resolves through the MRO is "
+      "one the __init_subclass__ hook wrapped (decide over the table: no alias, decorator, mixin, nested class, foreign setattr); log_prob/sample accept iff "
+      "trailing dimensions match exactly; Chain/Concatenate/Stack/Reshape/Transformed/TriangularAffine/Coupling/MAF/BNAF constructors accept iff the documented "
+      "compatibility holds, Concatenate/Stack declare exactly the jnp.concatenate/jnp.stack shape for every valid (also negative) axis; Partial for slices and "
+      "in-range integer indices. Correspondence: every concrete bijection class x four methods x wrong-shape lattice x condition variants (exception class and "
+      "result shapes), constructors on shape grids, live __mro__/__dict__/__wrapped__ of every subclass, distributions.",
+      _TB + " Known finding kept faithful in the model: Partial accepts an out-of-range integer index (theorem partial_oob_int_accepted; "
+      "partial_ctor_rejects_iff_partial excludes it). Array/tuple index kinds of Partial and the result shapes of successful calls are covered by the "
+      "correspondence/oracle on the real code, not by theorems. Python's __init_subclass__/MRO/functools.wraps semantics are modelled by the resolver and "
+      "validated against live introspection each run.", "DESIGN.md §5 C13")
+
+claim("C05", "Lean 4 theorems about definitions regenerated from the source (py2lean) + Float correspondence + scipy oracle",
+      "For every valid parameter (scale>0, rate>0, df>0, minval<maxval) and every point of the support, the one-element log-prob of Normal, LogNormal, Uniform "
+      "(closed support), Gumbel, Cauchy, Laplace, Exponential, Logistic and StudentT - the generated standard log-density under the generated "
+      "AbstractTransformed._log_prob with the bijection the constructor builds (softplus-reparameterised scale/df) - equals the textbook log-density written "
+      "out in the theorem (Normal/Cauchy/Exponential also = log of Mathlib's gaussianPDFReal/cauchyPDFReal/exponentialPDFReal); for any number of independent "
+      "dimensions the lifted log-prob is the sum of the one-element values; the accessors loc/scale/df/rate/minval/maxval return the constructor's values; the "
+      "max-shifted logsumexp/log_softmax the model runs equal log-sum-exp / v - logsumexp v, the VmapMixture log-prob is the log of the weight-normalised sum "
+      "of component densities for any number of components and positive weights, is invariant to rescaling the weights, and the normalised weights sum to one; "
+      "samplers are bijection(base sample), consistent with sample_and_log_prob, and for Normal push Mathlib's standard Gaussian measure to gaussianReal mu sigma^2. "
+      "Every run compares the model at Float with the real private/public log_prob (special-value classes exactly: -inf outside the support, NaN -> -inf), "
+      "accessors, samplers, constructor guards and VmapMixture over all broadcastable parameter shapes and edge/outside/non-finite points.",
+      _TB + " Prelude/Stats.lean specs of jax.scipy.stats logpdfs and the Lanczos log-Gamma at Float are trusted specs validated by the correspondence; "
+      "Model/Families.lean wiring/lifting/mixture are hand models tied by correspondence. Over the reals statements are on the support (no -inf/NaN in R). "
+      "MultivariateNormal has no Lean model: scipy oracle only. Sampling law proved for Normal only; other families by a KS statistic in the witness search. "
+      "At Uniform's upper edge the Float comparison uses an input tolerance of max(16 ulps, 4e-11 width) (softplus round trip of the scale is inexact in floating point).",
+      "DESIGN.md §5 C05")
+
+claim("C10", "Lean 4 theorems about loop bodies regenerated from the source (py2lean) under hand-modelled while_loop/scan + exact Rat/Float correspondence",
+      "For every strictly increasing f with a root r and every lower < upper, tol > 0, max_iter >= 0: the generated interval adaptation terminates within "
+      "clog2(ceil(d/(upper-lower))+1) iterations (d = distance of r to the interval) returning a bracket of r (collapsed onto r on an exact hit) no wider than "
+      "(upper-lower)+d; the generated bisection loop keeps r bracketed, halves the width, makes <= max_iter iterations and returns a point within "
+      "max(tol, (hi0-lo0)/2^(max_iter+1)) of r; coordinate by coordinate the scan recovers the preimage of any triangular map increasing in its own coordinate "
+      "(exactly for an exact scalar solver, within eps*(1+L/m)^i for an eps-accurate one). The real float64 code is compared bit-for-bit (root, iteration counts, "
+      "adapted bracket, sequence of evaluation points) with the model run at exact Rat and at Float on every check.",
+      _TB + " lax.while_loop / lax.scan and the glue of _bisection_search are hand-modelled (Model/Bisection.lean) and validated by that correspondence; float "
+      "resolution at the root's magnitude is outside the theorems.", "DESIGN.md §5 C10")
+
+for _p in ["C02","C04","C06","C14","C15","C16","C17","C18"]:
     NOT_YET[_p] = "not yet built in this round: theorems and correspondence under construction (see DESIGN.md §8); never claimed on the strength of the harness alone"
